@@ -1275,6 +1275,22 @@ def services():
         def boom(ctx, s):
             raise Fault('Client.Boom', s)
 
+    class JSvc(ServiceBase):
+        """JsonRpc('spyne') application"""
+        @rpc(Unicode, Integer, _returns=Unicode)
+        def say(ctx, name, times):
+            return u' '.join([name] * times)
+
+        @rpc(Unicode, _returns=Unicode)
+        def boom(ctx, s):
+            raise Fault('Client.Boom', s)
+
+        @rpc(Unicode, _returns=Unicode)
+        def login(ctx, user):
+            note('setCtx')
+            ctx.transport.resp_headers['Set-Cookie'] = 'session=secret-of-%s' % user
+            return u'welcome ' + user
+
     class HSvc(ServiceBase):
         @rpc(Unicode, Integer, _returns=Tagged)
         def make(ctx, label, count):
@@ -1321,7 +1337,7 @@ def services():
             return s
 
     _SVC.update(Ordered=Ordered, Item=Item, Tagged=Tagged, Svc=Svc, HSvc=HSvc, HdrSvc=HdrSvc, PtSvc=PtSvc, AuxSvc=AuxSvc,
-                XSvc=XSvc)
+                XSvc=XSvc, JSvc=JSvc)
     return _SVC
 
 
@@ -1355,6 +1371,9 @@ def make_instance(fx):
         chunked = False                         # the whole body is joined before it is handed to the server
     elif fx == 'xml':
         app = Application([S['XSvc']], 'c12', in_protocol=XmlDocument(validator='lxml'), out_protocol=XmlDocument())
+    elif fx == 'jrpc':
+        from spyne.protocol.json import JsonRpc
+        app = Application([S['JSvc']], 'c12', in_protocol=JsonRpc('spyne', validator='soft'), out_protocol=JsonDocument())
     else:
         raise core.Infra('unknown fixture ' + fx)
     return WsgiApplication(app, chunked=chunked)
@@ -1442,6 +1461,20 @@ def request_universe():
           R('xpart(nil)', 'xml', body=xml_body('part', '<t:p code="c8"><t:weight xmlns:xsi="http://www.w3.org/2001/XMLSchema-instance" xsi:nil="true"/></t:p>')),
           R('xboom(e)', 'xml', body=xml_body('boom', '<t:s>e</t:s>')),
           R('xgarbage', 'xml', body=b'<<<')]
+
+    def J(name, doc):
+        return R(name, 'jrpc', body=json.dumps(doc).encode(), env={'CONTENT_TYPE': 'application/json; charset=utf-8'})
+    u += [J('jsay(A,2)', {"ver": 1, "body": {"say": {"name": "A", "times": 2}}}),
+          J('jsay(B,3)', {"ver": 1, "body": {"say": {"name": "B", "times": 3}}}),
+          J('jfault', {"ver": 1, "fault": {"faultcode": "Client.Whatever", "faultstring": "this envelope carries a fault"}}),
+          J('jboom(x)', {"ver": 1, "body": {"boom": {"s": "x"}}}),
+          J('jsay(A,zz)', {"ver": 1, "body": {"say": {"name": "A", "times": "zz"}}}),
+          J('jlogin(bob)', {"ver": 1, "body": {"login": {"user": "bob"}}}),
+          J('jnover', {"body": {}}),
+          J('jnomethod', {"ver": 1, "body": {"nosuch": {}}}),
+          J('jgarbage', None)]
+    u[-1]['body'] = '{"ver": 1, "body": '
+
     return u
 
 
@@ -1528,11 +1561,31 @@ class Env:
         self.begin_pcs = [pc for pc, i in enumerate(wsdl['instrs']) if i == 'buildBegin']
         self.keys = {}
         self.labels = {}
+        self.base_codes = dict(self.codes)
+
+    PER_REQUEST_METHODS = ('create_in_document', 'decompose_incoming_envelope', 'deserialize', 'serialize',
+                           'create_out_string', 'validate_body', 'generate_method_contexts', 'set_method_descriptor')
 
     def new_run(self, w):
-        """instance-specific tables"""
+        """instance-specific tables; the per-request entry points of the protocol classes this instance uses become
+        switch points too (statement granularity), so that state parked on a protocol object between two of them, or
+        inside one, can be caught red-handed whatever the protocol"""
         self.keys = {}
         self.labels = {}
+        codes = dict(self.base_codes)
+        for prot in (w.app.in_protocol, w.app.out_protocol) + tuple(ALT_PROT.values()):
+            for klass in type(prot).__mro__:
+                for nm in self.PER_REQUEST_METHODS:
+                    f = klass.__dict__.get(nm)
+                    f = _func(f) if f is not None else None
+                    code = getattr(f, '__code__', None)
+                    if code is not None and code not in codes:
+                        try:
+                            st = stmt_map(fn_ast(f)[0])
+                        except Exception:       # noqa
+                            st = {}
+                        codes[code] = {'kind': 'plain', 'stmts': st, 'name': '%s.%s' % (klass.__name__, nm)}
+        self.codes = codes
 
     def resolve(self, e):
         """an attrcache hit saw a half-initialised entry iff what it saw differs from the entry's final content"""
@@ -1956,6 +2009,8 @@ def snapshot(w):
              ('interface', w.app.interface), ('docs', docs)]
     for i, m in enumerate(memoize.registry):
         roots.append(('memoize[%s]' % getattr(m.func, '__name__', i), m))
+    for i, pr in enumerate(ALT_PROT.values()):
+        roots.append(('altprot%d' % i, pr))
 
     def walk(o, path, depth):
         if isinstance(o, _PRIM):
@@ -2057,7 +2112,7 @@ def shared_writes():
     found = {}
     ctx_cells = {}
     universe = request_universe()
-    for fx in ('soap', 'soft', 'http', 'xml'):
+    for fx in ('soap', 'soft', 'http', 'xml', 'jrpc'):
         w = make_instance(fx)
         reqs = [r for r in universe if r['fx'] == fx]
         for rnd in ('cold', 'warm'):
@@ -2072,7 +2127,7 @@ def shared_writes():
                         ctx_cells.setdefault(p, '%s request %s:%s' % (rnd, fx, r['name']))
                 for p in set(before) | set(after):
                     if before.get(p) != after.get(p):
-                        allowed = any(c in p for c in CACHES)
+                        allowed = any(c in p for c in CACHES) or ('altprot' in p and '__app' in p)   # the modelled `bind` cell
                         if r['kind'] == 'wsdl' and any(c in p for c in WSDL_BUILD):
                             allowed = True      # the builder's own state, written inside the locked region
                         if not allowed:
@@ -2295,7 +2350,7 @@ def phase_wsdl(E, rng, T, firsts=(0, 1), fx_list=('soap', 'soft')):
                 for b in bs:
                     E.execute(fx, wn, ['legs', [[first, a], [other, b], [first, None], [other, None]]], 'wsdl',
                               'wsdl-2thr-2preempt')
-    for nthr in ((3, 4) if 1 in firsts else ()):
+    for nthr in ((3, 4) if not firsts else ()):
         names = ['wsdl', 'wsdl2', 'wsdl', 'wsdl2'][:nthr]
         for _ in range(60 * T):
             order = list(range(nthr))
@@ -2379,6 +2434,8 @@ def phase_publish_sweep(E, rng, T, fx):
 CONTEXT_PAIRS = {
     'soap': [('teapot(x)', 'add(1,2)'), ('login(bob)', 'whoami(al)'), ('hdr(T1,x)', 'hdr(T2,y)'), ('gen(3)', 'teapot(x)'),
              ('add(1,2)', 'add(40,2)'), ('hdr(T3,oops)', 'genfault(2)')],
+    'jrpc': [('jsay(A,2)', 'jfault'), ('jsay(A,2)', 'jsay(B,3)'), ('jboom(x)', 'jlogin(bob)')],
+    'xml': [('xadd(x,2)', 'xtypes'), ('xpart(c7)', 'xboom(e)')],
     'http': [('hteapot(y)', 'hadd(1,2)'), ('hlogin(bob)', 'hwhoami(al)'), ('asxml(k)', 'make(a,3)'), ('hgen(2)', 'hlogin(eve)')],
 }
 
@@ -2387,11 +2444,13 @@ def phase_context_sweep(E, rng, T, fx):
     """per-request state (status, response headers, SOAP headers, aux contexts, output protocol, lazily produced body):
     two requests that differ in it; the first is pre-empted at evenly spread points of its whole run (every point in
     the thorough tier), the second runs to completion in between"""
-    for a, b in CONTEXT_PAIRS[fx]:
+    pairs = [(fx, p) for p in CONTEXT_PAIRS[fx]] if fx != 'other' else \
+        [(f, p) for f in ('jrpc', 'xml') for p in CONTEXT_PAIRS[f]]
+    for fx, (a, b) in pairs:
         for x, y in ((a, b), (b, a)):
             base = E.execute(fx, [x, y], ['legs', [[0, None], [1, None]]], 'all', 'sequential')
             n_first = max(1, base['npoints'][0])
-            stride = 1 if T > 1 and n_first < 400 else max(1, n_first // (30 * T))
+            stride = 1 if T > 1 and n_first < 400 else max(1, n_first // (20 * T))
             off = rng.randrange(stride)
             for k in range(off, n_first + 1, stride):
                 E.execute(fx, [x, y], ['legs', [[0, k], [1, None], [0, None]]], 'all', 'context-1preempt')
@@ -2476,7 +2535,7 @@ def phase_stress(E, rng, T):
     H = E.H
     U = H.universe
     for i in range(40 * T):
-        fx = ('soap', 'soft', 'http', 'xml')[i % 4]
+        fx = ('soap', 'soft', 'http', 'xml', 'jrpc')[i % 5]
         names_all = [r['name'] for r in U.values() if r['fx'] == fx]
         names = [rng.choice(names_all) for _ in range(4)]
         if fx in ('soap', 'soft'):
@@ -2563,11 +2622,12 @@ def run(ctx):
     # under some schedule must not take the check down)
     scratch = os.path.join(core.VERIF, '.scratch', 'c12-%d' % os.getpid())
     os.makedirs(scratch, exist_ok=True)
-    phases = [('wsdl-a', phase_wsdl, ((0,),)), ('wsdl-b', phase_wsdl, ((1,),)), ('wsdl-fail', phase_wsdl_failures, ()), ('witness-errlog', phase_witness, ('errlog',)), ('witness-cache', phase_witness, ('cache',)), ('mixed-soap', phase_mixed, ('soap',)),
-              ('mixed-soft', phase_mixed, ('soft',)), ('mixed-http', phase_mixed, ('http',)), ('mixed-xml', phase_mixed, ('xml',)),
+    phases = [('wsdl-a', phase_wsdl, ((0,),)), ('wsdl-b', phase_wsdl, ((1,),)), ('wsdl-n', phase_wsdl, ((),)), ('wsdl-fail', phase_wsdl_failures, ()), ('witness-errlog', phase_witness, ('errlog',)), ('witness-cache', phase_witness, ('cache',)), ('mixed-soap', phase_mixed, ('soap',)),
+              ('mixed-soft', phase_mixed, ('soft',)), ('mixed-http', phase_mixed, ('http',)), ('mixed-xml', phase_mixed, ('xml',)), ('mixed-jrpc', phase_mixed, ('jrpc',)),
               ('stress', phase_stress, ()),
               ('publish-soap', phase_publish_sweep, ('soap',)), ('publish-http', phase_publish_sweep, ('http',)),
-              ('context-soap', phase_context_sweep, ('soap',)), ('context-http', phase_context_sweep, ('http',))]
+              ('context-soap', phase_context_sweep, ('soap',)), ('context-http', phase_context_sweep, ('http',)),
+              ('context-other', phase_context_sweep, ('other',))]
     if ctx.thorough:
         phases.append(('publish-soft', phase_publish_sweep, ('soft',)))
     mp = multiprocessing.get_context('fork')
